@@ -42,7 +42,8 @@ public:
     o << "S " << s->Get_n_user() << " " << hexd(s->Get_density()) << " " << hexd(s->Get_mass_water()) << " "
       << hexd(s->Get_ph()) << " " << hexd(gh) << " " << hexd(goh) << " " << e->density_iterations << " "
       << hexd(e->kgw_kgs) << " " << hex(s->Get_initial_data()->Get_units()) << " "
-      << (s->Get_initial_data()->Get_calc_density() ? 1 : 0);
+      << (s->Get_initial_data()->Get_calc_density() ? 1 : 0) << " " << hexd(s->Get_tc()) << " " << hexd(s->Get_pe()) << " "
+      << hexd(s->Get_patm());
     ck->out.push_back(o.str());
     const std::map<std::string, cxxISolutionComp>& comps = s->Get_initial_data()->Get_comps();
     for (std::map<std::string, cxxISolutionComp>::const_iterator it = comps.begin(); it != comps.end(); ++it) {
